@@ -137,8 +137,8 @@ theorem GovAt_step (E : Env) {P : Trait → Prop} {w : World} (hw : NoDeleg w) {
             rcases h with h | ⟨_, h | ⟨hn', b, h⟩⟩
             · exact hadd t h
             · exact hcg t (Or.inl h)
-            · rw [prefixTrait_plain_eq (hw.cls c1 (List.mem_of_getElem? hc1))
-                (hw.obj o1 (List.mem_of_getElem? ho1))] at h
+            · rw [prefixTrait_plain_eq (hw.cls _ (List.mem_of_getElem? hc1))
+                (hw.obj _ (List.mem_of_getElem? ho1))] at h
               exact hcg t (Or.inr ⟨hn', b, h⟩)
         · rw [hch.itr name (Ne.symm hn)] at hti; exact hig t hti
     · refine ⟨o, c2, ?_, hc2, hig, hg2, htot2⟩
@@ -174,8 +174,8 @@ theorem DictAt_step (E : Env) {P : Trait → Prop} {w : World} (hw : NoDeleg w) 
       refine ⟨o1', by simp only; rw [hres.objs]; exact getElem?_set_self' ho1, ?_⟩
       by_cases hn : name1 = name
       · subst hn
-        have hcp := hw.cls c1 (List.mem_of_getElem? hc1)
-        have hop := hw.obj o1 (List.mem_of_getElem? ho1)
+        have hcp := hw.cls _ (List.mem_of_getElem? hc1)
+        have hop := hw.obj _ (List.mem_of_getElem? ho1)
         rcases hch.dictT with h | ⟨h1, h⟩ | ⟨t, value, hdis, h⟩ | ⟨t, v, hnone, hdis, h⟩
         · rw [h]; exact hdr
         · rw [h]; exact (hrem h1).symm
